@@ -45,6 +45,11 @@ ASSUMPTIONS = [
     "generated grammar",
 ]
 STATEMENT_STATUS = {
+    "C01_bufsize_indep / C01_offset_indep / C01_offset_indep_ws": "proved, FULL (every byte string, conformant or damaged, "
+        "odd hex included): the objects read do not depend on the read-buffer size, nor on a token-free prefix (white "
+        "space of every SPC byte, complete comments) in front; checked on the implementation for damaged spellings too",
+    "C01_concat_feed": "proved: when a ends in a complete token the stack parser fed with the tokens of a ++ ws ++ b is in "
+                       "the state reached by feeding the tokens of a, then those of b (uses C14_compositional)",
     "C01_int_token / C01_name_token / C01_string_token (+_eof, _buffered)": "proved: every token-level spelling lexes to "
         "its value from any main-scanner state, at every buffer size",
     "C01_hex_statement": "full statement; FALSE on the code (C01_hex_statement_fails, C01_odd_hex_cex): odd digit "
@@ -1015,6 +1020,15 @@ def check_mutant(ctx: C.Ctx, batch: Batch, case: Case, rng) -> None:
         return
     batch.add("model.obj %d %s" % (case.bufsiz, C.hx(data)), "model.obj",
               {"data": data.hex(), "bufsiz": case.bufsiz, "mutant": True}, got)
+    # C01_offset_indep_ws / C01_bufsize_indep on ANY bytes: white space in front and another buffer size change
+    # nothing (the model provably behaves so; a difference means that model and code differ on one of the two)
+    if rng.random() < 0.5:
+        pad2 = bytes(rng.choice(b"\x00\t\n\x0b\x0c\r ") for _ in range(rng.randint(1, 9)))
+        b2 = rng.choice([1, 2, 3, 5, 7, 4096])
+        got3 = read_stream(pad2 + data, b2)
+        ctx.case((data, "mutant-offset", pad2, b2), True, branch="reader:mutant-offset")
+        if got3 != got and not (got3.endswith("!RecursionError") or got3.endswith("!MemoryError")):
+            ctx.disagree("impl.offset", {"data": data.hex(), "pad": pad2.hex(), "bufsiz": [case.bufsiz, b2]}, got, got3)
     if rng.random() < 0.5 and b"stream" not in data and b"obj" not in data:
         got2 = read_getobj(data, case.bufsiz, case.eol, b"")
         pdf, off = getobj_pdf(data, case.eol, b"")
